@@ -210,6 +210,10 @@ func (c12) RunCase(c *core.Ctx) {
 			}
 			rec := &cbRecorder{keys: c12KeyUniverse}
 			b := spec.Build(n, rec.hooks(c.R))
+			if c.R.Intn(3) == 0 {
+				warmAlt(c.R, b) // the schema object has been used with another destination type before
+				rec.events = nil
+			}
 			var o *run.Outcome
 			var exp *ref.Result
 			var input any
@@ -377,8 +381,12 @@ func c12ErrorScenario(c *core.Ctx) {
 	victim := nodes[c.R.Intn(len(nodes))]
 	which := c.R.Intn(2)
 	retIssue := c.R.Intn(3) == 0
-	sentinel := errors.New("post-transform sentinel error")
+	var sentinel error = errors.New("post-transform sentinel error")
 	sentIssue := &z.ZogIssue{Code: "from_post", Message: "issue returned by post-transform"}
+	if !retIssue && c.R.Intn(3) == 0 {
+		// an ordinary error that merely WRAPS an issue somewhere in its chain is still an ordinary error
+		sentinel = fmt.Errorf("tag rejected: %w", &z.ZogIssue{Code: "inner_issue", Path: "some.other.path", Message: "inner"})
+	}
 	victim.Posts[which].Name = fmt.Sprintf("fails(%d)", which)
 	victim.Posts[which].Fn = func(ptr any) error {
 		if retIssue {
@@ -546,7 +554,8 @@ func c12PreScenario(c *core.Ctx) {
 		path = "[1]"
 	}
 	root.Number()
-	for _, in := range []any{"!boom", "fine", 12, true} {
+	ps, pi := "pointer-held", 7
+	for _, in := range []any{"!boom", "fine", 12, true, &ps, &pi} {
 		rec := &cbRecorder{keys: c12KeyUniverse}
 		b := spec.Build(root, rec.hooks(c.R))
 		v := fmt.Sprintf("pre-%d", c.Case)
@@ -573,7 +582,13 @@ func c12PreScenario(c *core.Ctx) {
 					c.Violation("callback-context-values|pre", det(map[string]any{"ctx": obs.Render(obs.Norm(ev.ctxVals))}))
 					return
 				}
-				if !obs.Equal(ev.val, obs.Norm(in)) && !(place == 2 && preCalls == 1 && obs.Equal(ev.val, "fine")) {
+				if rv := reflect.ValueOf(in); rv.Kind() == reflect.Ptr {
+					// a pointer input must reach the function as that very pointer (not its pointee)
+					if !(place == 2 && preCalls == 1) && (ev.argType != rv.Type() || ev.addr != rv.Pointer()) {
+						c.Violation("preprocess-argument", det(map[string]any{"received_type": fmt.Sprint(ev.argType), "node_input_type": rv.Type().String()}))
+						return
+					}
+				} else if !obs.Equal(ev.val, obs.Norm(in)) && !(place == 2 && preCalls == 1 && obs.Equal(ev.val, "fine")) {
 					c.Violation("preprocess-argument", det(map[string]any{"received": obs.Render(ev.val), "node_input": obs.Render(obs.Norm(in))}))
 					return
 				}
